@@ -601,3 +601,10 @@ func (p *producer) notaryAssistedTx(o Op) (*transaction.Transaction, string) {
 	tx.Scripts = []transaction.Witness{w0, w1}
 	return tx, fmt.Sprintf("notary-assisted tx sponsored by a%d (deposit %s)", o.A, dep)
 }
+
+// drawElection: number of accounts that register as candidates (and get votes) in the election blocks. A committee is
+// elected only when at least as many candidates as committee seats (6) exist, so 6 is given weight: those runs hand
+// the chain over to other validators at the first epoch boundary.
+func drawElection(rt *rapid.T) int {
+	return []int{0, 0, 0, 1, 2, 3, 6, 6, 6, 6}[rapid.IntRange(0, 9).Draw(rt, "election")]
+}
